@@ -112,15 +112,45 @@ type c05Conn struct {
 }
 
 func c05StartPair(opts ...sftp.ServerOption) (*sftp.Client, func(), error) {
+	cli, stop, _, err := c05StartPairEnd(opts...)
+	return cli, stop, err
+}
+
+// c05ServerEnd is what is known about the end of a pair's server: done is closed when Serve has returned, err is
+// what it returned, byHarness is set when the harness itself ended the pair (stop / kill).
+type c05ServerEnd struct {
+	done      chan struct{}
+	err       error
+	byHarness atomic.Bool
+}
+
+// describe says, for a failure text, how the server of the pair is doing.
+func (e *c05ServerEnd) describe() string {
+	if e == nil {
+		return "no server"
+	}
+	select {
+	case <-e.done:
+		if e.err == nil {
+			return "Serve has returned nil"
+		}
+		return fmt.Sprintf("Serve has returned %T: %v", e.err, e.err)
+	default:
+		return "Serve has not returned"
+	}
+}
+
+func c05StartPairEnd(opts ...sftp.ServerOption) (*sftp.Client, func(), *c05ServerEnd, error) {
 	c2sR, c2sW := io.Pipe()
 	s2cR, s2cW := io.Pipe()
 	srv, err := peers.NewOSServer(c05Conn{c2sR, s2cW}, opts...)
 	if err != nil {
-		return nil, nil, err
+		return nil, nil, nil, err
 	}
-	done := make(chan struct{})
+	end := &c05ServerEnd{done: make(chan struct{})}
+	done := end.done
 	go func() {
-		srv.Serve()
+		end.err = srv.Serve()
 		s2cW.Close()
 		c2sR.Close()
 		close(done)
@@ -135,6 +165,7 @@ func c05StartPair(opts ...sftp.ServerOption) (*sftp.Client, func(), error) {
 		ch <- res{c, err}
 	}()
 	kill := func() {
+		end.byHarness.Store(true)
 		c2sW.Close()
 		lib.WaitCleanup("c05/server-exit", 5*time.Second, done) // clean-up wait, bounded by its own budget (lib/budget.go)
 		s2cW.Close()
@@ -144,9 +175,10 @@ func c05StartPair(opts ...sftp.ServerOption) (*sftp.Client, func(), error) {
 	case r := <-ch:
 		if r.err != nil {
 			kill()
-			return nil, nil, r.err
+			return nil, nil, nil, r.err
 		}
 		return r.c, func() {
+			end.byHarness.Store(true)
 			// clean-up, not an oracle: Client.Close waits for the receiver, which waits for the server to end its output
 			closed := make(chan struct{})
 			go func() { r.c.Close(); close(closed) }()
@@ -155,11 +187,11 @@ func c05StartPair(opts ...sftp.ServerOption) (*sftp.Client, func(), error) {
 			// connection stops reading) must see the pipe closed, or it never ends
 			s2cR.Close()
 			kill()
-		}, nil
+		}, end, nil
 	case <-time.After(lib.HangWait(20 * time.Second)):
 		lib.SpendHang(c05Phase(), lib.HangWait(20*time.Second))
 		kill()
-		return nil, nil, errors.New("client handshake timed out")
+		return nil, nil, nil, errors.New("client handshake timed out")
 	}
 }
 
@@ -176,6 +208,8 @@ type c05Run struct {
 	rootA, rootB     string
 	cli              *sftp.Client
 	stop             func()
+	end              *c05ServerEnd // the server of the pair in use
+	escSeen          int           // refusals of the transport guard (lib.Escapes) that concern this run, seen so far
 	opts             []sftp.ServerOption
 	cutoff, horizon  time.Time // modification times between the two are "recent" (produced by the run itself)
 	restarts         int
@@ -607,6 +641,13 @@ func (r *c05Run) execA(op c05Op) c05Out {
 			go func() { runtime.Gosched(); cancel() }()
 		}
 		l, err := c.ReadDirContext(ctx, p)
+		if r.mode == "cwd" && op.Ctx != "live" && op.Ctx != "" {
+			// A cancelled call returns while its request may still be on its way: the server (and the transport guard
+			// in front of it) would resolve the relative path of that OPENDIR from wherever the process has gone by
+			// then.  The process stays here until the server has answered a request sent after it (the server works
+			// through everything but READ / WRITE in order, packet-manager.go workerChan).
+			c.RealPath(".")
+		}
 		if op.Ctx != "live" && op.Ctx != "" && errors.Is(err, context.Canceled) {
 			// documented: readdirctx/cancelled
 			return c05Out{Cat: "ctx-cancelled", Vals: r.listLines(l), Err: err.Error(), err: err}
@@ -1016,6 +1057,30 @@ func c05RunSeq(mode, cons string, tree []c05Ent, ops []c05Op, gen *rand.Rand, n 
 		}
 		run.enter('A')
 		outA := c05Guard(func() c05Out { return run.execA(op) })
+		// A connection that the HARNESS ended is not an outcome of the implementation: when the server of the pair
+		// has stopped and the transport guard (peers/guard.go) has refused a frame of this run, the step is not
+		// judged — tree A is made a copy of tree B again, a new pair is started, and the step counts as not run.
+		if why := run.endedByHarness(outA); why != "" {
+			run.leave()
+			res.in.Ops = res.in.Ops[:len(res.in.Ops)-1]
+			if !light {
+				res.hist["not-run/connection-ended-by-the-harness:"+why]++
+			}
+			if err := run.restart(); err != nil {
+				res.tieErr = "restart after the harness ended a connection: " + err.Error()
+				return res
+			}
+			if err := c05Clone(run.parentB, run.parentA); err != nil {
+				res.tieErr = "resync: " + err.Error()
+				return res
+			}
+			snapA = run.snapshot(run.parentA)
+			if run.restarts >= 8 {
+				res.tieErr = "the harness ended the connection of this sequence eight times: " + why
+				return res
+			}
+			continue
+		}
 		// package os is not under test, but a call of it that does not return (an open(2) that waits) must not cost the run
 		osDone := make(chan c05Out, 1)
 		if mode == "cwd" && outA.Cat == "hang" {
@@ -1049,6 +1114,10 @@ func c05RunSeq(mode, cons string, tree []c05Ent, ops []c05Op, gen *rand.Rand, n 
 			if !(outB.Cat == "ok" && c05Subset(outA.Vals, outB.Vals) || outB.Cat != "ok" && len(outA.Vals) == 0) {
 				what = "value"
 			}
+		case errors.Is(outA.err, sftp.ErrSSHFxConnectionLost):
+			// (not ended by the harness: see endedByHarness above) — whatever category package os reports, the call did
+			// not fail for that reason, and every later call of the pair would fail the same way
+			what = "connection"
 		case outA.Cat != outB.Cat:
 			// documented: removeall/missing-path
 			if !(op.K == "removeall" && leafMissing && outB.Cat == "ok" && outA.Cat == "not-exist") {
@@ -1159,11 +1228,21 @@ func c05RunSeq(mode, cons string, tree []c05Ent, ops []c05Op, gen *rand.Rand, n 
 		}
 
 		if what != "" {
-			f := c05Failure{Step: step, Op: op,
+			f := c05Failure{Step: len(res.in.Ops) - 1, Op: op, // (the index among the operations kept in the input: those not run are not in it)
 				Expected: map[string]any{"side": "package os on tree B", "result": c05TrimOut(outB)},
 				Actual:   map[string]any{"side": "Client/Server on tree A", "result": c05TrimOut(outA), "tree_diff(-os,+sftp)": c05TrimLines(diff)}}
 			f.Key, f.What = run.classify(op, what, outA, outB, diff, leafIsLink, leafIsLinkSlash, selfRef)
 			f.Sig = fmt.Sprintf("%s/os=%s,sftp=%s", what, outB.Cat, outA.Cat)
+			if errors.Is(outA.err, sftp.ErrSSHFxConnectionLost) || run.serverEnded() {
+				// the implementation lost its connection on its own (the harness has not touched the pair, the transport
+				// guard has refused nothing): what the server and the goroutines of the package are doing goes with the failure
+				if run.end != nil { // give Serve a moment to return, so that what it returns can be shown (a clean-up wait)
+					lib.WaitCleanup("c05/server-exit", 2*time.Second, run.end.done)
+				}
+				state := run.connectionState()
+				f.What += "; the connection of the pair is gone without the harness having ended it — server: " + run.end.describe()
+				f.Actual.(map[string]any)["connection"] = state
+			}
 			if run.observedOnly(f.Key, op) {
 				// a genuine difference of the unchanged package with its own, exact key (recorded in
 				// /verif/known_findings.json); every other instance of the base key stays a plain failure
@@ -1209,6 +1288,8 @@ func (r *c05Run) classify(op c05Op, what string, a, b c05Out, diff []string, lea
 	switch {
 	case what == "hang" || what == "panic":
 		return what + "/" + op.K, "client call did not return normally: " + a.Err
+	case what == "connection":
+		return map[bool]string{true: "process-dir-relative/"}[r.mode == "cwd"] + op.K + "/connection-lost", "the client call failed because the connection between client and server was lost (package os: " + b.Cat + ")"
 
 	// inherent to a path-based RemoveAll (known finding): decided on the pre-operation tree alone, whatever differs
 	case op.K == "removeall" && selfRef:
@@ -1519,6 +1600,12 @@ func checkC05(c *lib.Ctx) {
 	c05ProbeStorable(r)
 	defer c05CwdShutdown()
 	directed := append(c05DirectedSeqs(c.Tier), c05CwdSeqs(c.Tier)...)
+	onlyCwd := os.Getenv("VERIF_C05_ONLY") == "cwd" // for looking into path mode cwd alone (the result then says so)
+	if onlyCwd {
+		nSeq, nLong, directed = 0, 0, c05CwdSeqs(c.Tier)
+		r.Note("VERIF_C05_ONLY=cwd: only the sequences of path mode cwd were run")
+		r.MarkIncomplete("VERIF_C05_ONLY=cwd")
+	}
 	jobs := make([]job, nSeq, nSeq+nCwd+len(directed))
 	for i := range jobs {
 		mode := "abs"
@@ -1674,6 +1761,9 @@ func checkC05(c *lib.Ctx) {
 		r.Note("tree shapes never met in this run: %s", strings.Join(missing, ", "))
 	}
 
+	if onlyCwd {
+		return
+	}
 	// family composite-model: the composites against their Lean model and the os reference semantics (c05_composite.go)
 	r.Rule += c05cRule
 	c05PhaseV.Store("c05/composite")
